@@ -88,7 +88,7 @@ Lemma session_nonvac :
   st (s_ip6 (sy s')) = Starting /\ ipcpOpen s' = false /\ linkEnded s' = true.
 Proof. vm_compute. repeat split; reflexivity. Qed.
 
-(* internal/l2tp (LNS sessions): onLCPDown only resets the phase, the NCP automata never get the Down event that
+(* internal/l2tp (LNS sessions) before c99b5bd: onLCPDown only reset the phase, the NCP automata never got the Down event that
    this-layer-down of LCP stands for (RFC 1661 4.4): IPCP stays Opened across an LCP renegotiation although the
    link below it is down; with the callback repaired (as internal/pppoe) it goes Down *)
 Definition scfg_lns_head : scfg := mkScfg default_cfg true true true false.
